@@ -829,7 +829,9 @@ BINARY(andq,pand,0xdb)
 BINARY(andnq,pandn,0xdf)
 BINARY(orq,por,0xeb)
 BINARY(xorq,pxor,0xef)
+#ifndef MMX
 BINARY(cmpgtsq,pcmpgtq,0x3837)
+#endif
 
 #ifndef MMX
 BINARY(maxsb,pmaxsb,0x383c)
@@ -3499,8 +3501,9 @@ orc_compiler_mmx_register_rules (OrcTarget *target)
   rule_set = orc_rule_set_new (orc_opcode_set_get("sys"), target,
       ORC_TARGET_MMX_SSE4_2);
 
-  REG(cmpgtsq);
 #ifndef MMX
+  /* pcmpgtq has no form on MMX registers */
+  REG(cmpgtsq);
   /* uses pcmpgtq, which is SSE 4.2 */
   orc_rule_register (rule_set, "convsssql", mmx_rule_convsssql_mmx41, NULL);
 #endif
